@@ -91,8 +91,11 @@ type vcfsKeep struct {
 	inSave bool // set by the driver around explicit save calls
 	// gate (C13): if non-nil, every PutB blocks here until released; returns false to fail
 	gate func(p *vcfsPut) bool
+	// called when a PutB call is about to return (C09/C13 log it as an event)
+	onDone func(p *vcfsPut, ok bool)
 	// observed reads of unknown blocks
 	badReads int
+	inflight int
 }
 
 func vcfsNewKeep() *vcfsKeep {
@@ -104,9 +107,21 @@ var vcfsErrRead = errors.New("verif: block not found")
 
 func vcfsHash(p []byte) string { return fmt.Sprintf("%x", md5.Sum(p)) }
 
+func (k *vcfsKeep) inflightNow() int {
+	k.mu.Lock()
+	defer k.mu.Unlock()
+	return k.inflight
+}
+
 func (k *vcfsKeep) PutB(p []byte) (string, int, error) {
 	buf := append([]byte(nil), p...)
 	k.mu.Lock()
+	k.inflight++
+	defer func() {
+		k.mu.Lock()
+		k.inflight--
+		k.mu.Unlock()
+	}()
 	put := &vcfsPut{K: len(k.puts) + 1, Data: buf, BG: !k.inSave}
 	k.puts = append(k.puts, put)
 	fail := k.failFn != nil && k.failFn(put.K, put.BG)
@@ -118,6 +133,9 @@ func (k *vcfsKeep) PutB(p []byte) (string, int, error) {
 		}
 	}
 	if fail {
+		if k.onDone != nil {
+			k.onDone(put, false)
+		}
 		return "", 0, vcfsErrPut
 	}
 	// a signature-like hint is added so that a locator is recognisably one this Keep issued
@@ -127,6 +145,9 @@ func (k *vcfsKeep) PutB(p []byte) (string, int, error) {
 	put.Locator = loc
 	put.OK = true
 	k.mu.Unlock()
+	if k.onDone != nil {
+		k.onDone(put, true)
+	}
 	return loc, 1, nil
 }
 
